@@ -54,7 +54,7 @@ def _sim_prange(*args):
 # the compiled kernel must be compiled against numba's real prange
 
 
-def gen_sheets(rng, n1, n2, style, flip=0.0):
+def gen_sheets(rng, n1, n2, style, flip=0.0, dense2=1.0, shear=0.0):
     """two roughly parallel sheets, as voxel coordinates; returns points, normals, surface labels"""
     gap = rng.uniform(3.0, 6.0)
     spacing = rng.uniform(1.8, 2.6)
@@ -64,17 +64,21 @@ def gen_sheets(rng, n1, n2, style, flip=0.0):
     side = int(math.ceil(math.sqrt(max(n1, n2))))
     for s, n in ((1, n1), (2, n2)):
         k = 0
-        for i in range(side):
-            for j in range(side):
+        sp = spacing if s == 1 else spacing / dense2
+        side_s = int(math.ceil(math.sqrt(n)))
+        for i in range(side_s):
+            for j in range(side_s):
                 if k >= n:
                     break
-                x = i * spacing + rng.uniform(-0.4, 0.4)
-                y = j * spacing + rng.uniform(-0.4, 0.4)
+                x = i * sp + rng.uniform(-0.4, 0.4) * sp / spacing
+                y = j * sp + rng.uniform(-0.4, 0.4) * sp / spacing
                 z0 = curv * (x * x + y * y) + tilt * x
                 z = z0 + (0.0 if s == 1 else gap) + rng.uniform(-0.3, 0.3)
                 pts.append([x + 20.0, y + 20.0, z + 20.0])
                 nz = 1.0 if s == 1 else -1.0
                 nv = np.array([rng.gauss(0, 0.05) - (2 * curv * x + tilt) * nz, rng.gauss(0, 0.05) - 2 * curv * y * nz, nz])
+                if shear:
+                    nv = nv + np.array([shear * nz, 0.0, 0.0])   # normals oblique to the sheets (sheared segmentation)
                 nv = nv / np.linalg.norm(nv)
                 if flip and rng.random() < flip:
                     nv = -nv  # a mis-oriented normal: its targets lie behind it and must not be paired
@@ -153,12 +157,20 @@ class C20(Property):
             T = 1
             p = 0.0
         n2 = max(8, n1 + rng.randrange(-6, 7))
-        pts, nrm, lab, gap = gen_sheets(rng, n1, n2, rng.pick(["flat", "curved", "tilted"]), rng.pick([0.0, 0.1, 0.3]))
+        dense2 = 1.0
+        if rng.chance(0.3):
+            # a finely sampled target surface: dozens of targets inside the range sphere, few of them inside the cone
+            dense2 = rng.pick([2.0, 3.0])
+            n1 = min(n1, 36)
+            n2 = int(n1 * dense2 * dense2)
+        shear = rng.pick([0.0, 0.6, 0.8]) if dense2 > 1.0 else 0.0
+        pts, nrm, lab, gap = gen_sheets(rng, n1, n2, rng.pick(["flat", "curved", "tilted"]), rng.pick([0.0, 0.1, 0.3]), dense2, shear)
         voxel = rng.pick([0.5, 0.78, 1.0, 1.5, 2.0])
         st = {"op": "measure", "sess": "s0", "points": pts, "normals": nrm, "labels": lab, "voxel": voxel,
               # the range limit sits anywhere from just below the sheet distance (many pairs right at the limit)
               # to well above it
-              "max_nm": round(gap * voxel * rng.pick([0.97, 1.02, 1.06, 1.1, rng.uniform(1.15, 1.8), rng.uniform(1.15, 1.8)]), 3),
+              "max_nm": round(gap * voxel * (rng.pick([0.97, 1.02, 1.06, 1.1, rng.uniform(1.15, 1.8), rng.uniform(1.15, 1.8)])
+                                             if not shear else rng.uniform(1.5, 1.9)), 3),
               "max_angle": rng.pick([1, 3, 5, 10, 20, 30]),
               "direction": rng.pick(["1to2", "1to2", "2to1"]), "num_threads": rng.pick([None, 1]),
               "motion": {"ang": pose.random_rotation_angles(rng), "t": [round(rng.uniform(-50, 50), 2) for _ in range(3)]},
@@ -196,6 +208,9 @@ class C20(Property):
         src, tgt = np.where(src_mask)[0], np.where(tgt_mask)[0]
         max_vox = max_nm / voxel
         cand, margin = admissible(points, normals, src, tgt, max_vox, max_angle)
+        in_ball = max((int((np.linalg.norm(points[tgt] - points[i], axis=1) < max_vox).sum()) for i in src), default=0)
+        if in_ball > 25:
+            world.probes["more_than_25_targets_in_range"] += 1
         ncand = max((len(v) for v in cand.values()), default=0)
         if ncand >= 25:
             world.probes["too_many_candidates_skipped"] += 1
